@@ -97,6 +97,11 @@ pub enum MapSel {
     /// probe deltas into the pool, whether the verdict is Ok or Err); `zero_start`: the timer's
     /// first reading is 0, the quickest rejection
     TimerTest { prog: TimerProg, zero_start: bool },
+    /// the start pool -> the pool after a generated history of public calls over a scripted timer
+    /// (output calls, timer_stats, set_rounds, test_timer, clones): every call is a bijection of
+    /// the pool for fixed readings, and which readings a call consumes does not depend on the
+    /// pool, so the whole history is one — also when a half is pending while a later call runs
+    History { prog: TimerProg, rounds: u8, ops: Vec<crate::props::c12::JOp> },
 }
 
 impl MapSel {
@@ -108,6 +113,7 @@ impl MapSel {
             MapSel::Collect { .. } => "collection",
             MapSel::FoldVar { .. } => "fold-in-pool-var-rounds",
             MapSel::TimerTest { .. } => "test_timer-run",
+            MapSel::History { .. } => "api-history",
         }
     }
     /// the time value this map folds first (for maps of the pool)
@@ -144,6 +150,35 @@ impl MapSel {
                 }
                 let _ = j.test_timer();
                 j.pool().ok_or_else(no_hook)
+            }
+            MapSel::History { prog, rounds, ops } => {
+                use crate::props::c12::JOp;
+                let mut g = adapter::jitter_gen(prog.script(), Some((*rounds).max(1)), 2_000_000);
+                if !g.jitter().unwrap().set_pool(x) {
+                    return Err(no_hook());
+                }
+                for op in ops {
+                    match op {
+                        JOp::U32 => {
+                            g.next_u32();
+                        }
+                        JOp::U64 => {
+                            g.next_u64();
+                        }
+                        JOp::Fill(n) => {
+                            crate::ops::fill_unaligned(&mut *g, *n);
+                        }
+                        JOp::Stats(v) => {
+                            g.jitter().unwrap().timer_stats(*v);
+                        }
+                        JOp::Rounds(r) => g.jitter().unwrap().set_rounds((*r).clamp(1, 8)),
+                        JOp::TestTimer => {
+                            let _ = g.jitter().unwrap().test_timer();
+                        }
+                        JOp::Clone => g = g.clone_box(),
+                    }
+                }
+                g.jitter().unwrap().pool().ok_or_else(no_hook)
             }
         }
     }
@@ -398,8 +433,9 @@ fn map_sel(with_collect: bool) -> BoxedStrategy<MapSel> {
     let coll = (gens::timer_prog(false, 6), 1u8..=4).prop_map(|(prog, rounds)| MapSel::Collect { prog, rounds });
     let var = (word(), word(), word()).prop_map(|(t, r1, r2)| MapSel::FoldVar { t, r1, r2 });
     let tt = (gens::timer_prog(false, 4), proptest::bool::weighted(0.2)).prop_map(|(prog, zero_start)| MapSel::TimerTest { prog, zero_start });
+    let hist = (gens::timer_prog(false, 6), 1u8..=3, proptest::collection::vec(prop_oneof![8 => crate::props::c12::jop(12), 2 => Just(crate::props::c12::JOp::TestTimer), 1 => Just(crate::props::c12::JOp::Clone)], 1..=5)).prop_map(|(prog, rounds, ops)| MapSel::History { prog, rounds, ops });
     if with_collect {
-        prop_oneof![6 => word().prop_map(|t| MapSel::FoldPool { t }), 6 => word().prop_map(|d| MapSel::FoldTime { d }), 6 => Just(MapSel::Stir), 4 => coll, 4 => var, 1 => tt].boxed()
+        prop_oneof![6 => word().prop_map(|t| MapSel::FoldPool { t }), 6 => word().prop_map(|d| MapSel::FoldTime { d }), 6 => Just(MapSel::Stir), 4 => coll, 4 => var, 1 => tt, 2 => hist].boxed()
     } else {
         prop_oneof![3 => word().prop_map(|t| MapSel::FoldPool { t }), 3 => word().prop_map(|d| MapSel::FoldTime { d }), 3 => Just(MapSel::Stir), 2 => var].boxed()
     }
@@ -458,7 +494,7 @@ pub fn def(ctx: &Ctx) -> PropDef {
     subs.push(PSub::boxed("birthday", t.pick(8, 24), move || (map_sel(false), any::<u64>()).prop_map(move |(map, start)| BirthdayCase { map, start, log2_samples: lg }).boxed(), check_birthday));
     PropDef {
         id: "C15",
-        rule: "three maps of the 64-bit pool are observed on the real code through the cfg(rngs_verif) hooks: the LFSR fold F(d,t) (in d for generated fixed t, in t for generated fixed d), the stir S(d), whole collections C_s(d) over generated timer scripts (fold + rotate-by-7 + stir composed), the fold with variable loop counts (timer_stats(true), loop-count readings generated), and whole test_timer() runs over scripted timers (accepted and rejected ones). Generated inputs (uniform, sparse 1-3 bits, dense, half-word, zero): (1) affinity triples M(a)^M(b)^M(c) = M(a^b^c) with a pairwise collision test, and joint affinity of F in (d,t); (2) if affine: the 64x64 linear part extracted from the basis must have rank 64 (a defect gives a kernel vector and an executed colliding pair), and the real map must follow the affine rule also at its algebraically special inputs (fixed point, result = complement of input, result = 0 / all ones), solved for from the extracted map; (3) model-free collision search: single-bit, double-bit, byte and random differentials, a birthday search over 2^16 (thorough 2^21) outputs per map, and orbit-related inputs: chains x, g(x), g(g(x)), ... of 4-16 pool contents related by a building block g of the step itself (the documented or the real single LFSR fold with the time value the map folds first, another fold, a rotation, the documented stir, an addition) must be mapped to pairwise different results (a step that applies a building block a pool-dependent number of times merges exactly such inputs). Only an executed collision is a violation; a non-affine map gets no algebraic verdict. Non-trivial = triple of three distinct non-zero values / pair with a non-zero difference; distinct by hash of the case.".into(),
+        rule: "three maps of the 64-bit pool are observed on the real code through the cfg(rngs_verif) hooks: the LFSR fold F(d,t) (in d for generated fixed t, in t for generated fixed d), the stir S(d), whole collections C_s(d) over generated timer scripts (fold + rotate-by-7 + stir composed), the fold with variable loop counts (timer_stats(true), loop-count readings generated), whole test_timer() runs over scripted timers (accepted and rejected ones), and generated histories of public calls (start pool -> pool after output calls, timer_stats, set_rounds, test_timer and clones, so that a call also runs while a half is pending). Generated inputs (uniform, sparse 1-3 bits, dense, half-word, zero): (1) affinity triples M(a)^M(b)^M(c) = M(a^b^c) with a pairwise collision test, and joint affinity of F in (d,t); (2) if affine: the 64x64 linear part extracted from the basis must have rank 64 (a defect gives a kernel vector and an executed colliding pair), and the real map must follow the affine rule also at its algebraically special inputs (fixed point, result = complement of input, result = 0 / all ones), solved for from the extracted map; (3) model-free collision search: single-bit, double-bit, byte and random differentials, a birthday search over 2^16 (thorough 2^21) outputs per map, and orbit-related inputs: chains x, g(x), g(g(x)), ... of 4-16 pool contents related by a building block g of the step itself (the documented or the real single LFSR fold with the time value the map folds first, another fold, a rotation, the documented stir, an addition) must be mapped to pairwise different results (a step that applies a building block a pool-dependent number of times merges exactly such inputs). Only an executed collision is a violation; a non-affine map gets no algebraic verdict. Non-trivial = triple of three distinct non-zero values / pair with a non-zero difference; distinct by hash of the case.".into(),
         explanation: Some("2^64 x 2^64 inputs cannot be enumerated. The pool updates are XOR/shift/rotate networks, i.e. affine maps over GF(2); generated triples establish affinity (BLR test), the linear part is then read off the real code on the 64 basis inputs and its rank decides bijectivity exactly. The rotation by 7 cannot be isolated through the hooks, but a composition of maps on a finite set is bijective only if every factor is, so the rank of whole collections covers it. The LFSR taps themselves are C12's subject: a different but bijective fold does not alarm here.".into()),
         assumptions: vec!["affinity outside the sampled triples".into(), "hooks verif_pool / verif_set_pool / verif_stir_once observe and set JitterRng's pool without other effects".into()],
         subs,
